@@ -143,6 +143,9 @@ func OrderingExtras() []Val {
 		p = append(p, Val{ID: "@" + s, Lit: "@" + s, V: mustDateTime(s), Kind: "DateTime", Class: "datetime.p6.ms3"})
 	}
 	p = append(p, Val{ID: "@T10:30:15.123", Lit: "@T10:30:15.123", V: mustTime("10:30:15.123"), Kind: "Time", Class: "time.p3.ms3"})
+	for _, t := range []string{"10:00:00.999", "10:00:01", "23:59:59.999", "00:00:00.000"} {
+		p = append(p, Val{ID: "@T" + t, Lit: "@T" + t, V: mustTime(t), Kind: "Time", Class: "time.carry"})
+	}
 	for i := range p {
 		attachRef(&p[i])
 	}
@@ -154,6 +157,11 @@ func OrderingExtras() []Val {
 		{"f.instant.us.off", "instant", "fhir.instant.us", "DateTime", "2020-01-15T12:30:15.123+02:00", ProtoInstant("2020-01-15T12:30:15.123999+02:00")},
 		{"f.dt.us", "dateTime", "fhir.datetime.us", "DateTime", "2020-01-15T10:30:15.123Z", ProtoDateTime("2020-01-15T10:30:15.123456Z")},
 		{"f.time.us", "time", "fhir.time.us", "Time", "T10:30:15.123", ProtoTime("10:30:15.123456")},
+		// microseconds that would carry into the next second / the next day when rounded: a System value cuts them
+		{"f.time.us.carry", "time", "fhir.time.us", "Time", "T10:00:00.999", ProtoTime("10:00:00.999500")},
+		{"f.time.us.midnight", "time", "fhir.time.us", "Time", "T23:59:59.999", ProtoTime("23:59:59.999999")},
+		{"f.dt.us.carry", "dateTime", "fhir.datetime.us", "DateTime", "2020-01-15T10:30:15.999Z", ProtoDateTime("2020-01-15T10:30:15.999500Z")},
+		{"f.instant.us.carry", "instant", "fhir.instant.us", "DateTime", "2020-12-31T23:59:59.999Z", ProtoInstant("2020-12-31T23:59:59.999999Z")},
 	} {
 		t, ok := ParseRefT(e.rkind, e.text)
 		if !ok {
